@@ -48,7 +48,7 @@ func genC13(ctx *fw.Ctx) []fw.Case {
 	}
 	srcs = append(srcs, corpus.StressSources(ctx.Rand("stress"), ctx.Pick(4, 40), 20, 120)...)
 	var cases []fw.Case
-	rounds := ctx.Pick(6, 60)
+	rounds := ctx.Pick(9, 90)
 	// Scenarios (first path element of the case id; race keys carry it):
 	//  whole: every goroutine prints the whole module (String/WriteTo), from never-printed and already-printed states
 	//  printed: the module has been printed once; all operations mixed
